@@ -336,7 +336,7 @@ func TestC02(t *testing.T) {
 		},
 		Gen:            genC02,
 		Run:            runC02,
-		QuickChecks:    2500,
-		ThoroughFactor: 25,
+		QuickChecks:    4000,
+		ThoroughFactor: 16,
 	})
 }
